@@ -93,6 +93,13 @@ class Script:
         m[1], m[2] = r.signal_name, (r.payload if isinstance(r.payload, int) else 0)
     elif op == "scribble":
       self.mark(["scribble", ef[1], 0]); hsm.scribble(ef[1])
+    elif op == "other":
+      # the handler dispatches an event into ANOTHER chart object (an orthogonal component): charts must not share any state
+      self.mark(["other", ef[1], 0])
+      comp = getattr(self, "companion", None)
+      if comp is not None:
+        h2, s2 = comp
+        h2.dispatch(s2.new_event(ef[1]))
     elif op == "cs":
       self.mark(["cs", "", 0])
       hsm.current_state()          # a handler that asks the chart where it is (reflection) while the step is under way
@@ -508,6 +515,24 @@ def run_chart(chart, ops):
                    "trc": [], "q": [], "dq": [], "cs": "", "live_spy": [], "live_trc": [], "live_trc_raw": [], "spycalls": []})
       if build_rec:
         return events
+    if chart.get("companion") and build == "dyn":
+      # a second, independent chart object of the same class built from the same table (without side effects), started, and - if it
+      # has a queue - with one event left pending in it for ever
+      import copy as _copy
+      c2 = _copy.deepcopy({k: v for k, v in chart.items() if not k.startswith("_")})
+      c2["eff"], c2["bad"] = [], []
+      script2 = Script(c2)
+      with Rings(chart.get("spy_ring", 500), chart.get("trc_ring", 500)):
+        hsm2 = make_host(host_kind, script2, cap)
+      script2.hsm = hsm2
+      script2.build_dyn(spied)
+      try:
+        hsm2.start_at(script2.fn[1])
+        if queued:
+          hsm2.post_fifo(script2.new_event(chart["sigs"][-1]))
+      except Exception:  # noqa
+        pass
+      script.companion = (hsm2, script2)
     if queued and host_kind != "factory":
       hsm.name = chart.get("name", "c")
       if chart.get("live_spy"):
